@@ -9,3 +9,26 @@ fire("C73", "sum-shots-not-multiplied-by-groups",
      "R-C73-shots", "get_num_shots_and_executions")
 silent("C73", "shots-product-commuted",
        [(S, "                num_shots += tape.shots.total_shots * H_executions", "                num_shots += H_executions * tape.shots.total_shots")])
+
+# --- R-C73-percircuit / R-C73-instance
+_ST = "pennylane/devices/modifiers/simulator_tracking.py"
+_DEV = "pennylane/devices/device_api.py"
+_DQ = "pennylane/devices/default_qubit.py"
+fire("C73", "counts-memoised-on-shots-and-measurements-only",
+     (_ST, "            for r, c in zip(batch_results, batch, strict=True):\n                qpu_executions, shots = get_num_shots_and_executions(c)\n",
+           "            counts = {}\n            for r, c in zip(batch_results, batch, strict=True):\n                key = (c.shots, tuple(hash(mp) for mp in c.measurements))\n"
+           "                if key not in counts:\n                    counts[key] = get_num_shots_and_executions(c)\n                qpu_executions, shots = counts[key]\n"),
+     "R-C73-percircuit", "_track_execute.execute")
+fire("C73", "counts-taken-from-first-circuit",
+     (_ST, "            for r, c in zip(batch_results, batch, strict=True):\n                qpu_executions, shots = get_num_shots_and_executions(c)\n",
+           "            qpu_executions, shots = get_num_shots_and_executions(batch[0])\n            for r, c in zip(batch_results, batch, strict=True):\n"),
+     "R-C73-percircuit", "_track_execute.execute") if False else None
+fire("C73", "device-constructor-keeps-class-level-tracker",
+     (_DEV, "        # each instance should have its own Tracker.\n        self.tracker = Tracker()\n", ""),
+     "R-C73-instance", "Device.__init__")
+fire("C73", "device-constructor-creates-tracker-only-when-shots",
+     (_DEV, "        self.tracker = Tracker()\n", "        if shots is not None:\n            self.tracker = Tracker()\n"),
+     "R-C73-instance", "Device.__init__")
+silent("C73", "counting-call-renamed-locals",
+       [(_ST, "                qpu_executions, shots = get_num_shots_and_executions(c)\n                if c.shots:\n                    self.tracker.update(\n                        simulations=1,\n                        executions=qpu_executions,\n                        results=r,\n                        shots=shots,",
+              "                n_exec, n_shots = get_num_shots_and_executions(c)\n                qpu_executions = n_exec\n                if c.shots:\n                    self.tracker.update(\n                        simulations=1,\n                        executions=qpu_executions,\n                        results=r,\n                        shots=n_shots,")])
